@@ -258,6 +258,7 @@ def build():
 
     plan.target(Contract(
         "iwafile:IWAArchiveSegment.to_buffer", entry=seg_entry, ensures=[seg_post], safety="fork",
+        search=lambda plan_, c: {"custom": "search_segments", "native_module": plan_.native_module},
         opaque={"len(obj.SerializeToString())": lambda ex, env: wrap(SERLEN(lift(env["obj"]))),
                 "b''.join([_VarintBytes(self.header.ByteSize()), self.header.SerializeToString()] + [obj.SerializeToString() for obj in self.objects])":
                     lambda ex, env: PObj("Bytes", {})},
